@@ -13,7 +13,7 @@ pub fn spec(tier: Tier) -> RunSpec {
 x {no Origin, Origin, Origin + Access-Control-Request-Method/-Headers} x {no Range, a valid Range} x both entry points (legacy restricted to its domain: plain files). \
 Oracle: HEAD = GET's status and header multiset modulo the timestamp value (hence the same Content-Length, Content-Type, Content-Range), empty body; OPTIONS = 2xx, empty body and, when the request carries Origin, \
 the preflight grants M-CORS predicts for the active (default allow-all) configuration: Allow-Origin = Origin, Allow-Credentials true, Allow-Methods / Allow-Headers echo the requested ones. \
-A quarter of the trees are served by the real release binary over loopback (class served-by-the-real-binary). Non-trivial = path served through the static-file controller (not '/'); distinct by (tree, path, method, header variant, entry); counted per request triple.",
+A fifth header variant per path carries two headers drawn (by the path) from G-REQ's vocabulary of request, client-hint, conditional and response header names. A quarter of the trees are served by the real release binary over loopback (class served-by-the-real-binary). Non-trivial = path served through the static-file controller (not '/'); distinct by (tree, path, method, header variant, entry); counted per request triple.",
         &["the form demo endpoints are not pages and stay outside this check", "CORS grants are judged for the default configuration here; C11 varies the configuration"],
         if tier == Tier::Quick { 900 } else { 14400 },
     )
@@ -43,7 +43,7 @@ pub fn check_tree(ctx: &Ctx, c: &Case, count: bool) -> Verdict {
     for f in &tree.files { paths.push(f.url.clone()); if let Some(s) = f.url.strip_suffix(".html") { if !s.ends_with('/') { paths.push(s.to_string()); } } }
     for d in &tree.dirs { if d.url != "/" && d.has_index { paths.push(d.url.clone()); paths.push(format!("{}/", d.url)); } }
     paths.sort(); paths.dedup();
-    let variants: [(&str, &str); 4] = [
+    let fixed_variants: [(&str, &str); 4] = [
         ("plain", ""),
         ("origin", "Origin: https://app.example\r\n"),
         ("preflight", "Origin: https://app.example\r\nAccess-Control-Request-Method: PUT\r\nAccess-Control-Request-Headers: X-Custom, Content-Type\r\n"),
@@ -57,6 +57,9 @@ pub fn check_tree(ctx: &Ctx, c: &Case, count: bool) -> Verdict {
         let selected_len = match &sel { Selected::File { path: fp, .. } => std::fs::metadata(fp).map(|m| m.len()).unwrap_or(0), Selected::BuiltIn(_) => 1, Selected::Nothing => continue };
         for entry in [Entry::Process, Entry::Legacy] {
             if entry == Entry::Legacy && !matches!(&sel, Selected::File { rule: "file", .. }) { continue; }
+            // a fifth variant per path: two headers of G-REQ's vocabulary (conditional, negotiation, client-hint, proxy headers ...), chosen by the path
+            let hv = { let v = crate::fw::greq::HEADER_VOCABULARY; let h = hash64(&(path.clone(), c.tree.salt)); format!("{}: 1\r\n{}: Wed, 21 Oct 2015 07:28:00 GMT\r\n", v[(h % v.len() as u64) as usize], v[((h >> 20) % v.len() as u64) as usize]) };
+            let variants: Vec<(&str, &str)> = fixed_variants.iter().cloned().chain(std::iter::once(("vocabulary", hv.as_str()))).collect();
             for (vname, extra) in variants.iter() {
                 if *vname == "range" && selected_len == 0 { continue; }
                 let (g_out, g_res) = send("GET", path, extra, entry);
@@ -92,7 +95,7 @@ pub fn check_tree(ctx: &Ctx, c: &Case, count: bool) -> Verdict {
                 }
                 let nt = path != "/";
                 *classes.entry(match &sel { Selected::File { rule, .. } => match *rule { "dir-index" => "dir-index", "html-fallback" => "html-fallback", "root-index" => "root-index", "asset" => "asset-file", _ => "file" }, Selected::BuiltIn(_) => "built-in", _ => "?" }).or_insert(0) += 1;
-                *classes.entry(match *vname { "plain" => "variant-plain", "origin" => "variant-origin", "preflight" => "variant-preflight", _ => "variant-range" }).or_insert(0) += 1;
+                *classes.entry(match *vname { "plain" => "variant-plain", "origin" => "variant-origin", "preflight" => "variant-preflight", "vocabulary" => "variant-vocabulary-headers", _ => "variant-range" }).or_insert(0) += 1;
                 if legacy { *classes.entry("legacy-entry").or_insert(0) += 1; }
                 if count && nt {
                     ctx.nontrivial.borrow_mut().insert(hash64(&(hash64(&format!("{:?}", c.tree)), path.clone(), *vname, legacy)));
